@@ -58,9 +58,9 @@ def enumerate_terms(t, tier: str):
     d1: list[tuple[str, object]] = []
     for cname, arities, build in cons:
         for ar in arities:
-            if cname == "Callable" and ar == 3 and tier == "quick":
-                continue
-            for combo in itertools.product(leaves, repeat=ar):
+            # quick: callables with two parameters over the first five leaves only
+            pool = leaves[:5] if (cname == "Callable" and ar == 3 and tier == "quick") else leaves
+            for combo in itertools.product(pool, repeat=ar):
                 lab = f"{cname}({', '.join(c[0] for c in combo)})"
                 mk = (lambda build=build, combo=combo: build([c[1]() for c in combo]))
                 d1.append((lab, mk))
